@@ -269,9 +269,89 @@ func c10enumAndBinary(c *core.Ctx) {
 	}
 }
 
+// a Go struct whose fields are narrower than (or of another kind than) the leaves they hold
+type c10Narrow struct {
+	I8  int8
+	U8  uint8
+	I32 int32
+	I   int
+	U16 uint16
+	I64 int64
+	U64 uint64
+	F64 float64
+	L8  []int8
+	Lu  []uint16
+	Ex  int32
+}
+
+// a value written into a field of a Go struct arrives there exactly or the write is refused, whatever the width of
+// the field: nothing wraps around, no fraction is cut off
+func c10fields(c *core.Ctx) {
+	m, err := parser.LoadModuleFromString(nil, `module nw { namespace "urn:nw"; prefix nw; revision 2020-01-01;
+  leaf i8 { type int64; } leaf u8 { type int64; } leaf i32 { type int64; } leaf i { type decimal64 { fraction-digits 2; } } leaf u16 { type int32; } leaf i64 { type uint64; } leaf u64 { type int64; }
+  leaf f64 { type int64; } leaf-list l8 { type int32; } leaf-list lu { type int32; } leaf ex { type int32; } }`)
+	if err != nil {
+		c.Violation(core.Replay{Kind: "harness", Summary: "c10fields module: " + err.Error(), NoInputFound: true})
+		return
+	}
+	cases := []struct {
+		doc  string
+		fits bool
+		want string // the field afterwards, when it fits
+	}{
+		{`{"i8":127}`, true, "I8:127"}, {`{"i8":128}`, false, ""}, {`{"i8":-128}`, true, "I8:-128"}, {`{"i8":-129}`, false, ""}, {`{"i8":300}`, false, ""}, {`{"i8":9223372036854775807}`, false, ""},
+		{`{"u8":255}`, true, "U8:255"}, {`{"u8":256}`, false, ""}, {`{"u8":-1}`, false, ""},
+		{`{"i32":2147483647}`, true, "I32:2147483647"}, {`{"i32":2147483648}`, false, ""}, {`{"i32":4294967297}`, false, ""}, {`{"i32":-2147483649}`, false, ""},
+		{`{"i":2}`, true, "I:2"}, {`{"i":1.99}`, false, ""}, {`{"i":-0.5}`, false, ""},
+		{`{"u16":65535}`, true, "U16:65535"}, {`{"u16":65536}`, false, ""}, {`{"u16":70000}`, false, ""}, {`{"u16":-1}`, false, ""},
+		{`{"i64":9223372036854775807}`, true, "I64:9223372036854775807"}, {`{"i64":9223372036854775808}`, false, ""}, {`{"i64":18446744073709551615}`, false, ""},
+		{`{"u64":5}`, true, "U64:5"}, {`{"u64":-5}`, false, ""},
+		{`{"f64":9007199254740992}`, true, "F64:9.007199254740992e+15"}, {`{"f64":9007199254740993}`, false, ""},
+		{`{"l8":[1,-128,127]}`, true, "L8:[1 -128 127]"}, {`{"l8":[1,300]}`, false, ""}, {`{"l8":[-129]}`, false, ""}, {`{"lu":[0,65535]}`, true, "Lu:[0 65535]"}, {`{"lu":[65536]}`, false, ""}, {`{"lu":[5,-1]}`, false, ""},
+		{`{"ex":2147483647}`, true, "Ex:2147483647"}, {`{"ex":-7}`, true, "Ex:-7"},
+	}
+	for _, backend := range []string{"node-struct", "reflect-struct"} {
+		for _, tc := range cases {
+			st := &c10Narrow{}
+			var opErr error
+			e := safeDo(func() error {
+				var n node.Node = &nodeutil.Node{Object: st}
+				if backend == "reflect-struct" {
+					n = nodeutil.ReflectChild(st)
+				}
+				src, err := nodeutil.ReadJSON(tc.doc)
+				if err != nil {
+					return err
+				}
+				opErr = node.NewBrowser(m, n).Root().UpsertFrom(src)
+				return nil
+			})
+			c.Evaluations++
+			c.Count("narrow_field", backend)
+			c.Distinct("narrow " + backend + tc.doc)
+			got := fmt.Sprintf("%+v", *st)
+			problem := ""
+			switch {
+			case e != nil:
+				problem = e.Error()
+			case tc.fits && (opErr != nil || !strings.Contains(got, tc.want+" ") && !strings.HasSuffix(got, tc.want+"}")):
+				problem = fmt.Sprintf("the value fits the field but the write gave %v and the struct holds %s", opErr, got)
+			case !tc.fits && opErr == nil:
+				problem = fmt.Sprintf("the field cannot hold the value, yet no error: the struct holds %s", got)
+			case !tc.fits && got != fmt.Sprintf("%+v", c10Narrow{}):
+				problem = fmt.Sprintf("refused (%v) but the struct was changed: %s", opErr, got)
+			}
+			if problem != "" {
+				c.Violation(core.Replay{Kind: "property-failure", Class: "narrow-field-" + backend, Summary: fmt.Sprintf("%s, upsert of %s into a struct with narrow fields: %s", backend, tc.doc, short(problem)), Input: map[string]interface{}{"backend": backend, "document": tc.doc}})
+			}
+		}
+	}
+}
+
 func C10(c *core.Ctx) {
 	c10xmlText(c)
 	c10enumAndBinary(c)
+	c10fields(c)
 	c.Rule = "complete boundary matrix: 8 integer targets × (10 Go integer kinds × boundary values of the kind ∪ float64/float32 boundary set ∪ string boundary set) + decimal64/bool/string targets + list forms + ConvOneOf; thorough adds random values and exhaustive 8/16-bit sources; directed: the text of XML elements of 16 leaf kinds (string, union, numbers, boolean, enumeration, leafrefs to them, as leaf and leaf-list) with surrounding white space through ReadXMLDoc. non-trivial = source denotes a number at or beyond a range boundary of source or target kind; distinct by (target, kind, value)"
 	c.Assumptions = append(c.Assumptions,
 		"strconv.ParseInt/ParseUint base 10 = the model's decimal parser (exercised on the string boundary set)",
